@@ -30,6 +30,7 @@
 #include <orc/orcprogram.h>
 #include <orc/orcutils-private.h>
 #include <orc/orcdebug.h>
+#include <orc/orcverif.h>
 
 
 #define SIZE 65536
@@ -61,6 +62,39 @@ static int orc_code_region_allocate_codemem (OrcCodeRegion *region);
 
 static OrcCodeRegion **orc_code_regions;
 static int orc_code_n_regions;
+
+#ifdef ORC_VERIF_HOOKS
+/* Index of a region in orc_code_regions; call with the global mutex held */
+static int
+orc_verif_region_index (OrcCodeRegion *region)
+{
+  int i;
+  for (i = 0; i < orc_code_n_regions; i++) {
+    if (orc_code_regions[i] == region) return i;
+  }
+  return -1;
+}
+
+/* Read-only walk over all regions and chunks */
+ORC_API void
+orc_verif_codemem_walk (void (*cb) (void *user, int region, void *write_ptr,
+      void *exec_ptr, int region_size, int offset, int size, int used),
+    void *user)
+{
+  int i;
+  OrcCodeChunk *chunk;
+
+  orc_global_mutex_lock ();
+  for (i = 0; i < orc_code_n_regions; i++) {
+    OrcCodeRegion *region = orc_code_regions[i];
+    for (chunk = region->chunks; chunk; chunk = chunk->next) {
+      cb (user, i, region->write_ptr, region->exec_ptr, region->size,
+          chunk->offset, chunk->size, chunk->used);
+    }
+  }
+  orc_global_mutex_unlock ();
+}
+#endif
 
 
 OrcCodeRegion *
@@ -171,6 +205,8 @@ orc_code_region_get_free_chunk (int size)
 
   orc_code_regions[orc_code_n_regions] = region;
   orc_code_n_regions++;
+  ORC_VERIF_EMIT ("\"e\":\"NewRegion\",\"r\":%d,\"rsize\":%d",
+      orc_code_n_regions - 1, region->size);
 
   for(chunk = region->chunks; chunk; chunk = chunk->next) {
     if (!chunk->used && size <= chunk->size){
@@ -192,6 +228,8 @@ orc_code_allocate_codemem (OrcCode *code, int size)
   orc_global_mutex_lock ();
   chunk = orc_code_region_get_free_chunk (aligned_size);
   if (!chunk) {
+    ORC_VERIF_EMIT ("\"e\":\"AllocFail\",\"size\":%d,\"asize\":%d,\"nreg\":%d",
+        size, aligned_size, orc_code_n_regions);
     orc_global_mutex_unlock ();
 
     ORC_ERROR ("Failed to get free chunk memory");
@@ -210,6 +248,12 @@ orc_code_allocate_codemem (OrcCode *code, int size)
   code->code = ORC_PTR_OFFSET(region->write_ptr, chunk->offset);
   code->exec = ORC_PTR_OFFSET(region->exec_ptr, chunk->offset);
   code->code_size = size;
+#ifdef ORC_VERIF_HOOKS
+  ORC_VERIF_EMIT ("\"e\":\"Alloc\",\"size\":%d,\"asize\":%d,\"r\":%d,\"off\":%d,"
+      "\"csize\":%d,\"nreg\":%d", size, aligned_size,
+      orc_verif_region_index (region), chunk->offset, chunk->size,
+      orc_code_n_regions);
+#endif
   /* compiler->codeptr = ORC_PTR_OFFSET(region->write_ptr, chunk->offset); */
 
   orc_global_mutex_unlock ();
@@ -225,12 +269,19 @@ orc_code_chunk_free (OrcCodeChunk *chunk)
 
   orc_global_mutex_lock ();
   chunk->used = FALSE;
+#ifdef ORC_VERIF_HOOKS
+  int verif_r = orc_verif_region_index (chunk->region);
+  int verif_off = chunk->offset;
+  int verif_size = chunk->size;
+#endif
   if (chunk->next && !chunk->next->used) {
     orc_code_chunk_merge (chunk);
   }
   if (chunk->prev && !chunk->prev->used) {
     orc_code_chunk_merge (chunk->prev);
   }
+  ORC_VERIF_EMIT ("\"e\":\"Free\",\"r\":%d,\"off\":%d,\"csize\":%d", verif_r,
+      verif_off, verif_size);
   orc_global_mutex_unlock ();
 }
 
